@@ -2,6 +2,11 @@ use parking_lot::RwLock;
 use std::collections::{hash_map::RandomState, HashMap};
 use std::hash::BuildHasher;
 use std::ops::{Deref, DerefMut};
+#[cfg(transparencies_stretto_verif)]
+use crate::verif::clock::{SystemTime, UNIX_EPOCH};
+#[cfg(transparencies_stretto_verif)]
+use std::time::Duration;
+#[cfg(not(transparencies_stretto_verif))]
 use std::time::{Duration, SystemTime, UNIX_EPOCH};
 
 use crate::CacheError;
@@ -215,3 +220,28 @@ impl<S: BuildHasher + Clone + 'static> ExpirationMap<S> {
 unsafe impl<S: BuildHasher + Clone + 'static> Send for ExpirationMap<S> {}
 
 unsafe impl<S: BuildHasher + Clone + 'static> Sync for ExpirationMap<S> {}
+
+#[cfg(transparencies_stretto_verif)]
+impl Time {
+    /// (ttl in nanoseconds, creation instant in nanoseconds since the epoch)
+    pub fn verif_parts(&self) -> (u64, u64) {
+        (self.d.as_nanos() as u64, self.created_at.nanos())
+    }
+}
+
+#[cfg(transparencies_stretto_verif)]
+impl<S: BuildHasher + Clone + 'static> ExpirationMap<S> {
+    pub(crate) fn verif_buckets(&self) -> Vec<(i64, Vec<(u64, u64)>)> {
+        let m = self.buckets.read();
+        let mut v: Vec<(i64, Vec<(u64, u64)>)> = m
+            .iter()
+            .map(|(b, bucket)| {
+                let mut ks: Vec<(u64, u64)> = bucket.map.iter().map(|(k, c)| (*k, *c)).collect();
+                ks.sort();
+                (*b, ks)
+            })
+            .collect();
+        v.sort();
+        v
+    }
+}
